@@ -82,7 +82,7 @@ PARTIAL = [
     'known findings of the unchanged tree (counterexample theorems in Props/C12.lean where the model covers them)',
 ]
 MANIFEST = dict(
-    text='Proof: 28 Lean theorems over all element counts / row lengths and all lane counts > 0: closed form of the packed loop, every '
+    text='Proof: 24 Lean theorems (4 of them counterexamples of known findings) over all element counts / row lengths and all lane counts > 0: closed form of the packed loop, every '
          'packed access inside its buffer, packed chunks + tail partition [0,n); SIMD unary / same-shape binary = scalar evaluator; '
          '2-d broadcasting binary: every output cell written exactly once, operand offsets = NumPy broadcasting, offsets in bounds, '
          'evaluator = NumPy broadcasting; full reduction = left fold over a commutative monoid when the literal 0 is its identity; '
